@@ -1,2 +1,13 @@
+"""C07 stage "prims": the primitive shapes as colliders with integer rays (directions in [-3,3]^3 scaled by 1, 2^-30
+and 2^10) and balls of radius m/4; judged by spec/geom/PrimJudge.tla (exact hit counts for spheres / circles / boxes
+from integer sign analysis, consistency laws decided in the harness for the others)."""
+import solids
+
+CLAUSES = {"panic", "count", "hits", "first", "parity", "ball", "exact"}
+
+
 def run(ctx):
-    pass
+    quick = ctx.tier == "quick"
+    solids.judge_stage(ctx, "prims", ["c07-prims", "n=%d" % (6 if quick else 40), "rays=%d" % (60 if quick else 120),
+                                      "balls=%d" % (20 if quick else 40)], CLAUSES,
+                       judge="geom/PrimJudge", keyfn=lambda rec, clause: "%s:%s" % (rec["site"], clause))
